@@ -412,7 +412,8 @@ func build(cl cell) (c Case, classes []string, ok bool) {
 	if k.number {
 		classes = append(classes, "parse-number-literal-message")
 	}
-	if k.runtime && x.top && cl.prefixRunsBlock {
+	// (an unterminated tag or string takes the following text as code: what fails, and when, depends on that text)
+	if (k.runtime || k.toEOF) && x.top && cl.prefixRunsBlock {
 		classes = append(classes, "runtime-error-after-block")
 	}
 	if k.afterCall {
@@ -654,7 +655,7 @@ func TestProp(t *testing.T) {
 	allLays := seq(nLayouts)
 	if r.Quick() {
 		sweep("every prefix", seq(len(prefixes)), seq(len(gaps)), seq(len(suffixes)), []int{layFlat, layAllLF}, true, 2)
-		sweep("every gap, suffix and layout", pick("empty", "multi-line double-quoted string", "if block"), seq(len(gaps)), seq(len(suffixes)), allLays, false, 2)
+		sweep("every gap, suffix and layout", pick("multi-line double-quoted string", "if block"), seq(len(gaps)), seq(len(suffixes)), allLays, false, 2)
 	} else {
 		sweep("full product", seq(len(prefixes)), seq(len(gaps)), seq(len(suffixes)), allLays, false, 3)
 	}
